@@ -511,34 +511,36 @@ def requestHost (hs : List Header) (uriHost : Option Bytes) (uriPort : Int) (pro
          (some uh, uriPort, flags))
     | none => (uriHost, uriPort, if uriHost.isSome then flags ||| HOST_AMBIGUOUS else flags)
 
+/-- htp_ch_urlencoded_callback_request_headers: the library's urlencoded body parser is attached when the content type asks for it -/
+def installUrlenc (cfg : Cfg) (uid : Nat) (t : Tx) (c : Conn) : Conn :=
+  if cfg.urlencParsers then
+    let t := (c.findTx uid).getD t
+    match t.reqContentType with
+    | some ct =>
+      if Bstr.beginsWithMem ct (b!"application/x-www-form-urlencoded") then
+        c.setTx { t with urlenBody := some {}, reqBodyHooks := t.reqBodyHooks ++ [.urlenc] }
+      else c
+    | none => c
+  else c
+
+/-- htp_ch_multipart_callback_request_headers (HTP_DECLINED when there is no usable boundary) -/
+def installMpart (cfg : Cfg) (uid : Nat) (t : Tx) (c : Conn) : Conn :=
+  if cfg.multipartParser then
+    let t := (c.findTx uid).getD t
+    match t.reqContentType, getHeaderC t.reqHeaders (b!"content-type") with
+    | some _, some ct =>
+      (match Multipart.findBoundary ct.value with
+       | (some b, flags) => c.setTx { t with mpart := some (Multipart.create b flags), reqBodyHooks := t.reqBodyHooks ++ [.mpart] }
+       | (none, _) => c)
+    | _, _ => c
+  else c
+
 /-- the end of htp_tx_process_request_headers: the outcome of the credentials parser, the header-data receiver, the library's own
-    content handlers, then the REQUEST_HEADERS callback -/
+    content handlers (registered on REQUEST_HEADERS, they run before the user's callback), then the REQUEST_HEADERS callback -/
 def txProcessRequestHeadersTail (cfg : Cfg) (uid : Nat) (t : Tx) (authErr : Bool) (c : Conn) : R :=
   if authErr then (c, .error) else
   reqReceiverFinalizeClear c >>? fun c =>
-  -- library content handlers registered on REQUEST_HEADERS run before the user's callback
-  let c :=
-    if cfg.urlencParsers then
-      let t := (c.findTx uid).getD t
-      match t.reqContentType with
-      | some ct =>
-        if Bstr.beginsWithMem ct (b!"application/x-www-form-urlencoded") then
-          c.setTx { t with urlenBody := some {}, reqBodyHooks := t.reqBodyHooks ++ [.urlenc] }
-        else c
-      | none => c
-    else c
-  -- htp_ch_multipart_callback_request_headers (HTP_DECLINED when there is no usable boundary)
-  let c :=
-    if cfg.multipartParser then
-      let t := (c.findTx uid).getD t
-      match t.reqContentType, getHeaderC t.reqHeaders (b!"content-type") with
-      | some _, some ct =>
-        (match Multipart.findBoundary ct.value with
-         | (some b, flags) => c.setTx { t with mpart := some (Multipart.create b flags), reqBodyHooks := t.reqBodyHooks ++ [.mpart] }
-         | (none, _) => c)
-      | _, _ => c
-    else c
-  runCallback .requestHeaders (some uid) none false c
+  runCallback .requestHeaders (some uid) none false (installMpart cfg uid t (installUrlenc cfg uid t c))
 
 /-- htp_tx_process_request_headers -/
 def txProcessRequestHeaders (cfg : Cfg) (uid : Nat) (c : Conn) : R :=
